@@ -263,9 +263,17 @@ func c07a(c *Ctx) {
 					pc := c.PC(fn)
 					dS, dW := pc.canonOf(pc.At(b.call.Block())), pc.canonOf(pc.At(wordW.Block()))
 					whySpace = "the space is written under [" + dS.String() + "] and the word after it under [" + dW.String() + "]: expected the space exactly when that word is written and it is not the first word of its line (one bare flag)"
+					// ways to the word write on which the line was cleared first (the wrap arm, when
+					// both arms share one word write) start a new line: no space there
+					var cleared []dnf
+					for _, b2 := range bcs {
+						if b2.method == "Reset" && b2.sb == lineSb && canReachAvoidingHead(b2.call, wordW, head.Instrs[0]) {
+							cleared = append(cleared, pc.canonOf(pc.At(b2.call.Block())))
+						}
+					}
 					for _, cj := range dS.cs {
 						for _, l := range cj {
-							if strings.HasPrefix(l, "-phi(") && !strings.Contains(l, " == ") && !strings.Contains(l, " < ") && dnfEquiv(dS, dnfAndLit(dW, l)) {
+							if strings.HasPrefix(l, "-phi(") && !strings.Contains(l, " == ") && !strings.Contains(l, " < ") && dnfEffEquiv(dnfAndLit(dW, l), cleared, dS) {
 								okSpace = true
 							}
 						}
